@@ -577,6 +577,126 @@ size_t LLVMFuzzerCustomMutator(uint8_t *data, size_t size, size_t max, unsigned 
 }
 #endif /* FZ_DER_PREFIX */
 
+
+/* ------------------------------------------------------------------ structure-aware mutation of TLS vectors
+ * Targets whose input is [FZ_TLSVEC_PREFIX selector bytes] TLS-encoded data define FZ_TLSVEC_PREFIX.  TLS structures are not
+ * self-describing, so the length-prefixed vectors are found heuristically: a 1/2/3-byte big-endian field whose value reaches
+ * exactly to the end of the buffer or of an enclosing vector, and runs of [type u16][len u16][data] entries (extensions) that
+ * fill such a vector exactly.  One vector is resized (bytes appended / removed at its end, or at a random place) and the
+ * length field of it and of every enclosing vector is adjusted, so that e.g. an odd-sized list inside a consistent
+ * extension inside a consistent extension block is produced in one step. */
+#if defined(FZ_TLSVEC_PREFIX) && !defined(FZ_REPLAY)
+size_t LLVMFuzzerMutate(uint8_t *Data, size_t Size, size_t MaxSize);
+
+typedef struct { uint32_t off, lsz, len; int parent; } fz_tv;
+#define FZ_TV_MAX 256
+
+static uint64_t fz_tvr_s;
+static uint32_t fz_tvr(void)
+{
+	fz_tvr_s ^= fz_tvr_s << 13; fz_tvr_s ^= fz_tvr_s >> 7; fz_tvr_s ^= fz_tvr_s << 17;
+	return (uint32_t)(fz_tvr_s >> 16);
+}
+
+static size_t fz_tv_rd(const uint8_t *d, size_t off, size_t lsz)
+{
+	size_t v = 0, i;
+	for (i = 0; i < lsz; i++) v = (v << 8) | d[off + i];
+	return v;
+}
+
+static void fz_tv_wr(uint8_t *d, size_t off, size_t lsz, size_t v)
+{
+	size_t i;
+	for (i = 0; i < lsz; i++) d[off + i] = (uint8_t)(v >> (8 * (lsz - 1 - i)));
+}
+
+/* vectors inside d[beg, end) whose content reaches exactly `end`; entries of extension-like runs */
+static void fz_tv_scan(const uint8_t *d, size_t beg, size_t end, int parent, fz_tv *v, int *cnt, int depth)
+{
+	size_t i, lsz;
+	if (depth > 6 || beg >= end) return;
+	/* a run of [type u16][len u16][data] entries filling the range exactly */
+	{
+		size_t p = beg, n = 0;
+		while (p + 4 <= end) {
+			size_t l = fz_tv_rd(d, p + 2, 2);
+			if (l > end - p - 4) break;
+			p += 4 + l; n++;
+		}
+		if (p == end && n >= 1 && n <= 40) {
+			p = beg;
+			while (p + 4 <= end && *cnt < FZ_TV_MAX) {
+				size_t l = fz_tv_rd(d, p + 2, 2);
+				int me = (*cnt)++;
+				v[me].off = (uint32_t)(p + 2); v[me].lsz = 2; v[me].len = (uint32_t)l; v[me].parent = parent;
+				fz_tv_scan(d, p + 4, p + 4 + l, me, v, cnt, depth + 1);
+				p += 4 + l;
+			}
+			return;
+		}
+	}
+	for (i = beg; i < end && i < beg + 48 && *cnt < FZ_TV_MAX; i++) {
+		for (lsz = 1; lsz <= 3; lsz++) {
+			size_t l;
+			if (i + lsz > end) break;
+			l = fz_tv_rd(d, i, lsz);
+			if (i + lsz + l == end && (l > 0 || lsz == 1)) {
+				int me = (*cnt)++;
+				v[me].off = (uint32_t)i; v[me].lsz = (uint32_t)lsz; v[me].len = (uint32_t)l; v[me].parent = parent;
+				fz_tv_scan(d, i + lsz, end, me, v, cnt, depth + 1);
+				return;
+			}
+		}
+	}
+}
+
+size_t LLVMFuzzerCustomMutator(uint8_t *data, size_t size, size_t max, unsigned int seed)
+{
+	static fz_tv v[FZ_TV_MAX];
+	int cnt = 0, i, a;
+	size_t k, pos, end;
+	long delta;
+	fz_tvr_s = 0x9E3779B97F4A7C15ULL * (seed + 1) | 1;
+	fz_tvr();
+	if (size > FZ_TLSVEC_PREFIX && fz_tvr() % 8 == 0) {
+		size_t b = fz_tvr() % FZ_TLSVEC_PREFIX;
+		if (fz_tvr() & 1) data[b] = (uint8_t)fz_tvr(); else data[b] ^= (uint8_t)(1u << (fz_tvr() % 8));
+		return size;
+	}
+	if (size <= FZ_TLSVEC_PREFIX + 2 || (fz_tvr() & 1)) return LLVMFuzzerMutate(data, size, max);
+	fz_tv_scan(data, FZ_TLSVEC_PREFIX, size, -1, v, &cnt, 0);
+	if (!cnt) return LLVMFuzzerMutate(data, size, max);
+	i = (int)(fz_tvr() % (unsigned)cnt);
+	end = v[i].off + v[i].lsz + v[i].len;
+	if (fz_tvr() & 1) {	/* grow */
+		static const uint8_t ks[] = { 1, 1, 1, 2, 3, 5, 8, 33, 64, 255 };
+		k = ks[fz_tvr() % sizeof(ks)];
+		if (size + k > max) return LLVMFuzzerMutate(data, size, max);
+		pos = (fz_tvr() & 3) ? end : v[i].off + v[i].lsz + (v[i].len ? fz_tvr() % v[i].len : 0);
+		memmove(data + pos + k, data + pos, size - pos);
+		{ size_t j; uint8_t f = (uint8_t)fz_tvr(); for (j = 0; j < k; j++) data[pos + j] = (fz_tvr() & 3) ? f : (uint8_t)fz_tvr(); }
+		size += k;
+		delta = (long)k;
+	} else {		/* shrink */
+		if (!v[i].len) return LLVMFuzzerMutate(data, size, max);
+		k = 1 + fz_tvr() % ((fz_tvr() & 3) ? (v[i].len < 3 ? v[i].len : 3) : v[i].len);
+		pos = end - k;
+		memmove(data + pos, data + pos + k, size - pos - k);
+		size -= k;
+		delta = -(long)k;
+	}
+	/* the vector itself and everything around it; now and then the outermost fix-ups are left out */
+	for (a = i; a >= 0; a = v[a].parent) {
+		long nl = (long)v[a].len + delta;
+		if (nl < 0 || (v[a].lsz < 3 && nl >= (1L << (8 * v[a].lsz)))) break;
+		fz_tv_wr(data, v[a].off, v[a].lsz, (size_t)nl);
+		if (fz_tvr() % 16 == 0) break;
+	}
+	return size;
+}
+#endif /* FZ_TLSVEC_PREFIX */
+
 #ifdef FZ_REPLAY
 
 static int fz_status_fd = 1;
